@@ -142,7 +142,8 @@ def main_runs(ck):
     c_text.write_tree(ind, files)
     for i, hs in enumerate(["0", "1", "2", "3", "random"]):
         outd = os.path.join(base, "out%d" % i)
-        rc, err = c_text.run_main(["-a", "-p", "-s", "S1", "-w", ",".join(WORDS), "-n", "65001,12", "-i", ind, "-o", outd], hashseed=hs)
+        # (a salt whose first character is outside the $9$ alphabet: the fallback salt character must not depend on the process)
+        rc, err = c_text.run_main(["-a", "-p", "-s", "_S1 salt", "-w", ",".join(WORDS), "-n", "65001,12", "-i", ind, "-o", outd], hashseed=hs)
         tree = c_text.read_tree(outd) if os.path.isdir(outd) else {}
         if rc != 0:
             ev.append({"ev": "exc", "what": "main rc=%s %s" % (rc, err[-200:])})
